@@ -323,6 +323,7 @@ def main():
 
     chk.bounds.append("Operator.compute_aem_list on symbolic scales, 2 and 3 iterations (quick) / 1-3 (thorough), running and fixed alpha_em")
     opwire.add_cases(chk, "C14", thorough, qcd=False)
+    opwire.add_qed_routing(chk, "C14", thorough)
     return chk.run()
 
 
